@@ -2663,6 +2663,16 @@ void Analyser::AnalyserImpl::analyseModel(const ModelPtr &model)
         return;
     }
 
+    // The variable of integration cannot be used as an external variable (this
+    // is reported below), so make sure that it is not marked as such.
+
+    if (mModel->mPimpl->mVoi != nullptr) {
+        auto voiInternalVariable = Analyser::AnalyserImpl::internalVariable(mModel->mPimpl->mVoi->variable());
+
+        voiInternalVariable->mIsExternal = false;
+        voiInternalVariable->mDependencies.clear();
+    }
+
     // Check that the variables that were marked as external were rightly so.
 
     for (const auto &primaryExternalVariable : primaryExternalVariables) {
